@@ -85,7 +85,7 @@ def gen_case(rng, tier, index):
                        if e not in cf_used and rng.random() < 0.35]
     ind_used = {it["t"] for b in g.all_blocks for it in b["items"]
                 if it["k"] in ("icall_sym", "ijmp_sym")}
-    labels_code = list(g.code_labels)
+    labels_code = list(g.callable_labels)
     externs = list(case["externs"])
     data_labels = [l for b in g.all_blocks if not b["code"]
                    for l in b["labels"]]
@@ -167,9 +167,14 @@ def gen_case(rng, tier, index):
         for _ in range(rng.choice([1, 1, 2])):
             cands = [b for b in g.code_blocks if len(b["items"]) >= 2 and
                      not any(e["b"] == b["id"] for e in case["edits"])]
+            # (not the return site of a call: where its return edges then
+            # belong is C03's subject and known finding F13 blurs it)
             whole = [b for k, b in enumerate(seq[:-1])
                      if b["code"] and b["items"] and seq[k + 1]["code"] and
-                     seq[k + 1]["items"] and
+                     seq[k + 1]["items"] and not (
+                         k and seq[k - 1]["code"] and seq[k - 1]["items"] and
+                         vocab.VOCAB[case["isa"]][seq[k - 1]["items"][-1][
+                             "k"]]["kind"] in ("call", "icall")) and
                      not any(e["b"] == b["id"] for e in case["edits"]) and
                      not any(b["id"] in f["entries"]
                              for f in case["funcs"])]
